@@ -124,3 +124,25 @@ Proof.
   - simpl. apply in_or_app. auto.
   - simpl. apply in_or_app. auto.
 Qed.
+
+(* ---- moving between a sub-vtree and the vtree that contains it ---- *)
+Lemma under_lift u : forall off u' off' p, occurs u off u' off' -> under u' off' p -> under u off p.
+Proof.
+  induction u as [v|l IHl r IHr]; intros off u' off' p Ho H; simpl in Ho.
+  - destruct Ho as [[<- <-]|[]]. exact H.
+  - destruct Ho as [[<- <-]|[Ho|Ho]]; [exact H | apply U_L | apply U_R]; eauto.
+Qed.
+
+(* a decision node below u is normalised for exactly one internal node of u *)
+Lemma under_locate u : forall off p, under u off p -> s_is_const p = false -> (forall v b, p <> SVar v b) ->
+  exists l r off', occurs u off (VNode l r) off' /\ at_node l r off' p.
+Proof.
+  induction u as [v|l IHl r IHr]; intros off p H NC NV.
+  - apply under_leaf_inv in H. destruct H as [->|[->|[pol ->]]]; try discriminate. exfalso. eapply NV; eauto.
+  - destruct (under_node_inv _ _ _ _ H NC) as [Ha|[Hl|Hr]].
+    + exists l, r, off. split; [apply occurs_refl | exact Ha].
+    + destruct (IHl off p Hl NC NV) as (l' & r' & off' & Ho & Ha).
+      exists l', r', off'. split; auto. simpl. right. left. exact Ho.
+    + destruct (IHr _ p Hr NC NV) as (l' & r' & off' & Ho & Ha).
+      exists l', r', off'. split; auto. simpl. right. right. exact Ho.
+Qed.
